@@ -1123,3 +1123,216 @@ func c20emptyChildLines(c *Ctx) {
 	}
 	c.R.Check(len(bad) == 0, rule, goctlAst+".Format#empty-child-lines", "the text of a child whose Format can be empty is compared with \"\" by the method that writes it (a child that formats to nothing takes no line)", "-", strings.Join(bad, "; "), bad, sites+len(canBeEmpty))
 }
+
+// c20closingTokenOwnLine (R19, round 8): a closing token never shares its line with a line comment. The `}` / `)` of a
+// block may carry head comments (the comments written inside an otherwise empty block); a `//` comment printed on the
+// line of the opening token swallows everything after it on the next pass — `service foo {// c` + `}` is re-read as
+// `service foo { // c}` and no longer parses. On every path of a Format method, between writing a node that contains
+// the opening token of the node's own L…/R… pair and writing the closing one, a NewLine was written, or the closing
+// token was transferred with ignoreHeadComment() (as the struct and group siblings do for their empty form).
+func c20closingTokenOwnLine(c *Ctx) {
+	rule := "C20.R19"
+	pk := c.P.Pkg(goctlAst)
+	if pk == nil {
+		return
+	}
+	pairs := map[string]string{"LBrace": "RBrace", "LParen": "RParen", "LBrack": "RBrack"}
+	n, checked := 0, 0
+	for _, fn := range c.P.AllFuncs(goctlAst) {
+		if fn.Name() != "Format" || fn.Signature.Recv() == nil || fn.Parent() != nil {
+			continue
+		}
+		// only nodes that own such a pair
+		rt := fn.Signature.Recv().Type()
+		if p, ok := rt.(*types.Pointer); ok {
+			rt = p.Elem()
+		}
+		st, ok := rt.Underlying().(*types.Struct)
+		if !ok {
+			continue
+		}
+		var open, closeF string
+		for i := 0; i < st.NumFields(); i++ {
+			if r, ok := pairs[st.Field(i).Name()]; ok {
+				for j := 0; j < st.NumFields(); j++ {
+					if st.Field(j).Name() == r {
+						open, closeF = st.Field(i).Name(), r
+					}
+				}
+			}
+		}
+		if open == "" {
+			continue
+		}
+		// block nodes only: the pair encloses a list of children (an inline pair — `(Req)`, `[]T`, `map[K]V` — is one line by
+		// nature and the grammar admits no line comment in front of its closing token)
+		block := false
+		for i := 0; i < st.NumFields(); i++ {
+			if _, isSl := st.Field(i).Type().Underlying().(*types.Slice); isSl {
+				block = true
+			}
+		}
+		if !block {
+			continue
+		}
+		n++
+		ps := c.paths(rule, fn, px.Config{MaxVisits: 2, MaxPaths: 200000})
+		isWrite := func(e *px.Event) bool {
+			return e.Kind == px.EvCall && e.Call.Static != nil && (e.Call.Static.Name() == "Write" || e.Call.Static.Name() == "WriteText") && strings.Contains(e.Call.Static.String(), "Writer")
+		}
+		isNewLine := func(e *px.Event) bool {
+			return e.Kind == px.EvCall && e.Call.Static != nil && e.Call.Static.Name() == "NewLine" && strings.Contains(e.Call.Static.String(), "Writer")
+		}
+		name := strings.TrimPrefix(fn.RelString(nil), mod)
+		c.forall(rule, name+"#closing-token", "between the write of the opening token and the write of the closing token of the node's own pair a NewLine is written, or the closing token is stripped of its head comments (a line comment on the opening token's line swallows the closing token on the next pass)", fn, ps, func(p *px.Path) (bool, string) {
+			pending, newline := false, false
+			for i := range p.Events {
+				e := &p.Events[i]
+				switch {
+				case isNewLine(e):
+					newline = true
+				case isWrite(e):
+					hasOpen, hasClose := false, false
+					ci, _ := e.Instr.(ssa.CallInstruction)
+					if ci == nil {
+						continue
+					}
+					loadOf := func(field string) func(ssa.Value) bool {
+						return func(v ssa.Value) bool {
+							u, ok := v.(*ssa.UnOp)
+							if !ok {
+								return false
+							}
+							fa, ok := u.X.(*ssa.FieldAddr)
+							return ok && fieldNameAt(fa.X.Type(), fa.Field) == field
+						}
+					}
+					for _, a := range ci.Common().Args {
+						if ssaReaches(a, loadOf(open), map[ssa.Value]bool{}, 0) {
+							hasOpen = true
+						}
+						if ssaReaches(a, loadOf(closeF), map[ssa.Value]bool{}, 0) {
+							hasClose = true
+						}
+					}
+					if hasClose && (pending || hasOpen) && !(pending && newline) {
+						checked++
+						stripped := false
+						for _, a := range ci.Common().Args {
+							if ssaReaches(a, func(v ssa.Value) bool {
+								call, ok := v.(*ssa.Call)
+								if !ok {
+									return false
+								}
+								cal := call.Call.StaticCallee()
+								if cal == nil || cal.Name() != "transferTokenNode" || len(call.Call.Args) == 0 {
+									return false
+								}
+								if !ssaReaches(call.Call.Args[0], loadOf(closeF), map[ssa.Value]bool{}, 0) {
+									return false
+								}
+								for _, o := range call.Call.Args[1:] {
+									if ssaReaches(o, func(w ssa.Value) bool {
+										c2, ok := w.(*ssa.Call)
+										if !ok {
+											return false
+										}
+										k := c2.Call.StaticCallee()
+										return k != nil && k.Name() == "ignoreHeadComment"
+									}, map[ssa.Value]bool{}, 0) {
+										return true
+									}
+								}
+								return false
+							}, map[ssa.Value]bool{}, 0) {
+								stripped = true
+							}
+						}
+						if !stripped {
+							// or the path established that the closing token carries no head comment
+							for _, b := range p.All(px.KindIs(px.EvBranch)) {
+								cn := b.Cond.Strip(false)
+								if b.Seq < e.Seq && !b.Taken && cn != nil && cn.Kind == px.KCall && cn.Call != nil && cn.Call.Static != nil && cn.Call.Static.Name() == "HasHeadCommentGroup" && cn.Call.Recv != nil && px.IsFieldLoad(cn.Call.Recv, closeF, nil) {
+									stripped = true
+								}
+							}
+						}
+						if !stripped {
+							return false, "the closing " + closeF + " is written at " + c.P.Pos(e.Pos) + " on the line of the opening " + open + " with its head comments: `{// c` + `}` is re-read as `{ // c}` (the comment swallows the closing token) and the formatted text no longer parses"
+						}
+					}
+					if hasOpen {
+						pending, newline = true, false
+					}
+					if hasClose {
+						pending = false
+					}
+				}
+			}
+			return true, ""
+		})
+	}
+	if n < 5 {
+		c.R.Undecided(rule, goctlAst+"#paired-nodes", "the nodes that own an opening/closing token pair are recognised", fmt.Sprintf("%d found", n))
+	}
+}
+
+// ssaReaches: some value the expression is built from (call arguments, variadic packs, boxed and converted values,
+// closure bindings, φ edges) satisfies pred.
+func ssaReaches(v ssa.Value, pred func(ssa.Value) bool, seen map[ssa.Value]bool, d int) bool {
+	if v == nil || seen[v] || d > 16 {
+		return false
+	}
+	seen[v] = true
+	if pred(v) {
+		return true
+	}
+	switch x := v.(type) {
+	case *ssa.Call:
+		for _, a := range x.Call.Args {
+			if ssaReaches(a, pred, seen, d+1) {
+				return true
+			}
+		}
+	case *ssa.Slice:
+		return ssaReaches(x.X, pred, seen, d+1)
+	case *ssa.Alloc:
+		for _, r := range *x.Referrers() {
+			switch y := r.(type) {
+			case *ssa.IndexAddr:
+				for _, r2 := range *y.Referrers() {
+					if st, ok := r2.(*ssa.Store); ok && ssaReaches(st.Val, pred, seen, d+1) {
+						return true
+					}
+				}
+			case *ssa.Store:
+				if y.Addr == ssa.Value(x) && ssaReaches(y.Val, pred, seen, d+1) {
+					return true
+				}
+			}
+		}
+	case *ssa.MakeInterface:
+		return ssaReaches(x.X, pred, seen, d+1)
+	case *ssa.ChangeType:
+		return ssaReaches(x.X, pred, seen, d+1)
+	case *ssa.ChangeInterface:
+		return ssaReaches(x.X, pred, seen, d+1)
+	case *ssa.Convert:
+		return ssaReaches(x.X, pred, seen, d+1)
+	case *ssa.UnOp:
+		return ssaReaches(x.X, pred, seen, d+1)
+	case *ssa.Phi:
+		for _, e := range x.Edges {
+			if ssaReaches(e, pred, seen, d+1) {
+				return true
+			}
+		}
+	case *ssa.MakeClosure:
+		for _, b := range x.Bindings {
+			if ssaReaches(b, pred, seen, d+1) {
+				return true
+			}
+		}
+	}
+	return false
+}
